@@ -126,7 +126,7 @@ def load_known():
     if os.path.exists(path):
         for line in open(path):
             line = line.strip()
-            if line and not line.startswith("#"):
+            if line and not line.startswith("#") and not line.startswith("fixed:"):
                 known.append(json.loads(line))
     return known
 
